@@ -185,6 +185,9 @@ class Gateway:
         sensor = self.sensors[sensor_id]
 
         if sensor.is_smart_sleep_node:
+            # The message will be created with the protocol version of the gateway
+            # when the node wakes up. Refuse values that are not valid for it now.
+            self.create_message_to_set_sensor_value(sensor, child_id, value_type, value)
             sensor.set_child_desired_state(child_id, value_type, value)
             return
 
